@@ -159,6 +159,11 @@ def concretise(cm, spec):
                  "day_of_month": 28 + spec["x"] % 4}
         elif what == "o":
             p = {"year": y, "day_of_year": 359 + spec["x"] % 8}
+        elif what == "t":
+            # year-less (truncated) week date: week 53 exists in no year of
+            # the 360-day calendar
+            p = {"truncated": True, "week_of_year": 51 + spec["x"] % 3,
+                 "day_of_week": 1 + spec["x"] % 7}
         else:
             p = {"year": y, "week_of_year": 51 + spec["x"] % 3, "day_of_week": 1}
         return {"op": "valid", "p": p}
@@ -482,7 +487,7 @@ def make_machine(ctx, workers, seen):
         def parse_raw(self, x):
             self._compute({"k": "parse_raw", "x": x})
 
-        @rule(y=Y, f=Fr, what=st.sampled_from("cow"), x=st.integers(0, 7))
+        @rule(y=Y, f=Fr, what=st.sampled_from("cowt"), x=st.integers(0, 7))
         def valid(self, y, f, what, x):
             self._compute({"k": "valid", "y": y, "f": f, "what": what, "x": x})
 
